@@ -90,7 +90,11 @@ Illegal == {i \in 1..Len(toks) : ~Mask[i] /\ ~MayOmit(toks, i, Mask)}
 ThmProperty   == (CheckProperty /\ Final) => Illegal = {}
 ThmSubsequence == Final => \A i \in 1..Len(toks) : (~Mask[i]) => toks[i].t \in {"StartTag", "EndTag"}
 ThmExplained  == Final => \A i \in Illegal : Explains(toks, i, KnownDefects) # {}
-ThmExport == (Export /\ Final) =>
+\* wide windows: export every stream from which the machine drops a token, and a deterministic 1/16 sample of the rest
+RECURSIVE TokHash(_)
+TokHash(ts) == IF ts = <<>> THEN 0 ELSE (Len(ts[1].n) * 7 + (IF ts[1].n = <<>> \/ ts[1].n = None THEN 0 ELSE ts[1].n[1]) + 3 * TokHash(Tail(ts))) % 1009
+Selected == ~Wide \/ (\E i \in 1..Len(toks) : ~Mask[i]) \/ TokHash(toks) % 16 = 0
+ThmExport == (Export /\ Final /\ Selected) =>
     PrintT(ToJson([inp |-> toks, out |-> OtFilter(toks, KnownDefects),
                    ill |-> [i \in Illegal |-> Explains(toks, i, KnownDefects)]]))
 =============================================================================
